@@ -345,12 +345,40 @@ def run(chk):
     chk.rule("C20.A", "ActuatorWrapper::update effect sequence and error propagation")
     chk.rule("C20.G", "GetterStateDeviceWrapper::update effect sequence")
     chk.rule("C20.P", "PIDWrapper update order and wiring")
+    chk.rule("C20.T", "terminal read tables (shared with C09)")
     chk.rule("C20.O", "the wrappers read their terminal after update_terminals() on every path")
     sim = S.Sim(prog)
     check_actuator(chk, prog, sim)
     check_getter_wrapper(chk, prog, sim)
     check_pid_wrapper(chk, prog, sim)
     check_read_after_terminal_update(chk, prog, sim)
+    # what "the combined data its terminal currently sees" IS: the terminal read tables (shared with C09)
+    import rules.C09 as C09
+    import report as _r
+    subr = _r.Check("C20", chk.tier)
+    C09.check_reads(subr, prog, sim)
+    chk.evaluations += subr.evaluations
+    keyr = "T:terminal-combined-read"
+    chk.obligation(keyr, "terminal read tables (state mean with newest time, newer command, combined) - shared with C09")
+    for v in subr.violations:
+        chk.violation("C20.T" if v["rule"].startswith("C09") else v["rule"], "terminal:" + v["key"], "the data the wrappers relay is read through the terminal: " + v["what"], **v["detail"])
+    if not subr.violations:
+        chk.discharge(keyr)
+    # release profile (K6 = default features, --release): debug_assert!(..) and its argument are compiled out, so a write or a
+    # call moved inside one silently disappears; the same tables must hold there
+    import report as _report
+    _p6 = load_config("K6")
+    chk.configs.append("K6")
+    _sub6 = _report.Check("C20", chk.tier)
+    _s6 = S.Sim(_p6)
+    check_actuator(_sub6, _p6, _s6)
+    check_getter_wrapper(_sub6, _p6, _s6)
+    check_pid_wrapper(_sub6, _p6, _s6)
+    chk.evaluations += _sub6.evaluations
+    for _v in _sub6.violations:
+        if _v["rule"] == "floor":
+            continue
+        chk.violation(_v["rule"], _v["key"] + "@K6", "[release profile] " + _v["what"], **_v["detail"])
     chk.assume("terminals do not follow getters (following = None)", "CommandPID::update is opaque inside PIDWrapper::update (its behaviour is C11's obligation)",
                "PIDWrapper wiring is checked by flow-insensitive intra-procedural provenance over new()")
     chk.extra["std_models"] = sorted(sim.stats["models_used"])
